@@ -1317,7 +1317,10 @@ pub struct JsonString<'a> {
 impl<'a> JsonString<'a> {
     /// Get the raw bytes including quotes.
     pub fn raw_bytes(&self) -> &'a [u8] {
-        let end = self.find_end();
+        // An unterminated string (no closing quote before the end of the
+        // text) has no closing quote to include: stop at the end of the text,
+        // as `raw_and_escaped` does, instead of slicing one byte past it.
+        let end = self.find_end().min(self.text.len());
         &self.text[self.start..end]
     }
 
